@@ -112,7 +112,7 @@ Section Proofs.
     forall (ty v : Z) (src dst tok : list Z) (pn la largest : Z) (ack frames : list Z) (extra : nat) (rest : list Z),
       valid_version v -> pn_type ty ->
       zlen dst <= W_MaxConnIDLen -> zlen src <= W_MaxConnIDLen -> zlen tok <= maxVarInt8 ->
-      0 <= pn < 2 ^ 62 -> -1 <= la -> la <= largest <= pn -> pn - la <= 2 ^ 31 ->
+      0 <= pn < 2 ^ 62 -> -1 <= la -> la <= largest <= pn + reorder_tolerance (lenForHeader pn la) -> pn - la <= 2 ^ 31 ->
       ack ++ frames <> [] ->
       let pnLen := lenForHeader pn la in
       let payload := packet_payload ack (pad_len (Z.to_nat pnLen) (length ack + length frames) extra) frames in
